@@ -3,7 +3,7 @@
 spec -> code : TLC enumerates (corpus, filter) cases as initial states (calibration grid; sampled corpora of
                0..3 jobs x the whole bounded grammar up to depth 3), checks NotIsComplement / AndIsMeet /
                OrIsJoin / Local on every case and exports the expected id sets (Find) together with the id sets
-               the *conformant model* of the code allows where a named deviation (D1, D2) applies.  A constructor
+               the *conformant model* of the code allows where a named deviation (D1, D2, D3) applies.  A constructor
                part of the same module is run with -simulate for depth-4 filters and 4..6 job corpora.
                Every case is materialised as a real project and Project.find_jobs is compared with the export.
                TLC is also asked for the requirement on the conformant model (ReqHolds); its counterexample is
@@ -24,6 +24,8 @@ from .. import queryutil as Q
 
 SIG_D1 = "find_jobs:$type-bool:int-and-bool-share-one-index-entry"
 SIG_D2 = "find_jobs:$not-over-doc-key:documents-not-loaded"
+SIG_D3 = "find_jobs:$type-int-float:minus-one-and-minus-two-share-one-index-entry-with-their-float"
+SIGS = (("D1", SIG_D1), ("D2", SIG_D2), ("D3", SIG_D3))
 SPEC = "query/Query.tla"
 THEOREMS = ["CaseOK", "NotIsComplement", "AndIsMeet", "OrIsJoin", "Local", "NoDeviationIsReference"]
 
@@ -38,12 +40,14 @@ def probe_flags(ctx):
     sb = Q.Sandbox(ctx.mkdtemp("probe2"), [({"a": 1}, {"x": 1}), ({"a": 2}, {"x": 2})])
     m = sb.find_mask({"$not": {"doc.x": 1}})
     fixed2 = m == (1 << 1)
-    return fixed1, fixed2
+    sb = Q.Sandbox(ctx.mkdtemp("probe3"), [({"a": -1}, {}), ({"a": -1.0}, {}), ({"b": -2}, {}), ({"b": -2.0}, {})])
+    fixed3 = sb.find_mask({"sp.a": {"$type": "float"}}) == 0b0010 and sb.find_mask({"sp.b": {"$type": "int"}}) == 0b0100
+    return fixed1, fixed2, fixed3
 
 
 def consts(mode, flags, ncorp=1, maxjobs=6, maxdepth=4):
     return {"MODE": '"%s"' % mode, "NCORP": ncorp, "MAXJOBS": maxjobs, "MAXDEPTH": maxdepth,
-            "FixedD1": tlc.lit(flags[0]), "FixedD2": tlc.lit(flags[1])}
+            "FixedD1": tlc.lit(flags[0]), "FixedD2": tlc.lit(flags[1]), "FixedD3": tlc.lit(flags[2])}
 
 
 # ---- replay of exported cases ------------------------------------------------------------------
@@ -138,7 +142,7 @@ class Collector:
     def finish(self):
         ctx = self.ctx
         for lab, (_, jobs, flt, want, got, source) in sorted(self.dev_sample.items()):
-            for sig, tag in ((SIG_D1, "D1"), (SIG_D2, "D2")):
+            for tag, sig in SIGS:
                 if tag in lab.split("+"):
                     ctx.violation(sig, "find_jobs(%s) on %r returns positions %s, the jobs' own data give %s (deviation %s, %d cases)" % (
                         json.dumps(flt), jobs, Q.mask_to_list(got), Q.mask_to_list(want), lab, self.dev[lab]),
@@ -172,7 +176,7 @@ def replay_export(ctx, col, tag, out, filters_file, procs):
     for rec, res in zip(lines, results):
         n += res["n"]
         for k in res["keys"]:
-            ctx._distinct.add(k)
+            ctx.count(k, n=0)
         for fi, want, got in res["bad"]:
             col.mismatch(res["jobs"], filters[fi - 1], want, got, tag)
         for lab, jobs, flt, want, got in res["samples"]:
@@ -238,19 +242,24 @@ def _record_corpus(item):
     return recs
 
 
-def judge(ctx, recs, flags, name):
-    """TLC (MODE = "file") decides every recorded execution"""
-    fin = os.path.join(ctx.work, name + "_in.ndjson")
-    fout = os.path.join(ctx.work, name + "_out.ndjson")
-    with open(fin, "w") as fh:
-        for r in recs:
-            fh.write(json.dumps({k: v for k, v in r.items() if k != "_py"}) + "\n")
-    cfgt = tlc.cfg(consts("file", flags), init="InitCases", next="NextCases", invariants=THEOREMS, postcondition="Judge")
-    r = tlc.run(SPEC, cfg_text=cfgt, workdir=ctx.work, env={"QUERY_IN": fin, "QUERY_OUT": fout}, coverage=False, allow_violation=False)
-    ctx.add_tlc("Query file mode (%s): %d recorded executions judged" % (name, len(recs)), r)
-    verdicts = [json.loads(l) for l in open(fout)]
-    if len(verdicts) != len(recs):
-        raise core.MachineryError("TLC judged %d of %d records" % (len(verdicts), len(recs)))
+def judge(ctx, recs, flags, name, chunk=2500):
+    """TLC (MODE = "file") decides every recorded execution (in batches: TLC values are ~100x the JSON text in memory)"""
+    verdicts = []
+    for c0 in range(0, len(recs), chunk):
+        part = recs[c0:c0 + chunk]
+        fin = os.path.join(ctx.work, "%s_%d_in.ndjson" % (name, c0))
+        fout = os.path.join(ctx.work, "%s_%d_out.ndjson" % (name, c0))
+        with open(fin, "w") as fh:
+            for r in part:
+                fh.write(json.dumps({k: v for k, v in r.items() if k != "_py"}) + "\n")
+        cfgt = tlc.cfg(consts("file", flags), init="InitCases", next="NextCases", invariants=THEOREMS, postcondition="Judge")
+        r = tlc.run(SPEC, cfg_text=cfgt, workdir=ctx.work, workers=_G.get("workers", 16), env={"QUERY_IN": fin, "QUERY_OUT": fout}, coverage=False, allow_violation=False)
+        ctx.add_tlc("Query file mode (%s): %d recorded executions judged" % (name, len(part)), r)
+        out = [json.loads(l) for l in open(fout)]
+        if len(out) != len(part):
+            raise core.MachineryError("TLC judged %d of %d records" % (len(out), len(part)))
+        os.remove(fin)
+        verdicts += out
     return verdicts
 
 
@@ -265,7 +274,7 @@ def apply_verdicts(ctx, col, recs, verdicts, source):
         stats["judged"] += 1
         want = sum(1 << (i - 1) for i in v["want"])
         if jobs:
-            ctx._distinct.add(Q.shape_of(wf) + "|" + ",".join(sorted(_job_sig(*j) for j in jobs)))
+            ctx.count(Q.shape_of(wf) + "|" + ",".join(sorted(_job_sig(*j) for j in jobs)), n=0)
         if rec["err"]:
             col.mismatch(jobs, wf, want, "ERR:" + rec["err"], source)
             continue
@@ -296,7 +305,7 @@ def apply_verdicts(ctx, col, recs, verdicts, source):
 # ---- TLC: the requirement on the conformant model ---------------------------------------------------
 def requirement_counterexample(ctx, col, flags, which):
     """with only deviation `which` active TLC must report ReqHolds violated; its counterexample is replayed"""
-    fl = (flags[0] or which != "D1", flags[1] or which != "D2")
+    fl = (flags[0] or which != "D1", flags[1] or which != "D2", flags[2] or which != "D3")
     cfgt = tlc.cfg(consts("grid", fl), init="InitCases", next="NextCases", invariants=["ReqHolds"])
     r = tlc.run(SPEC, cfg_text=cfgt, workdir=ctx.work, workers=_G.get("workers", 16), coverage=False, allow_violation=True)
     ctx.add_tlc("Query grid: requirement ReqHolds on the conformant model with %s active" % which, r)
@@ -321,16 +330,16 @@ def run(ctx):
         "TLC, the TLA+ Json / IOUtils community modules; os.listdir order is not controlled (D1 is modelled as nondeterministic in it)",
     ]
     ctx.cov["rule"] = ("case = (corpus, filter); grid: every 1-job corpus and every ordered 2-job corpus varying one slot (sp.a, sp.n.x, doc.x over "
-                       "absent/0/1/1.0/2.5/True/False/None/'1'/'ab'/[1,2]/[1.0,2]/{x:1}) x all atoms and their negations; universe: seeded RandomSubset corpora of 0..3 "
+                       "absent/0/1/1.0/2.5/-1/-1.0/True/False/None/'1'/'ab'/[1,2]/[1.0,2]/{x:1}) x all atoms and their negations; universe: seeded RandomSubset corpora of 0..3 "
                        "jobs x every filter of the bounded grammar (atoms, Not, all ordered And/Or pairs of a 40-atom core, depth 3 over 12- and 6-atom cores); "
                        "build: -simulate of the constructor actions (depth <= 4, 4..6 jobs); file: seeded random corpora/filters executed and judged by TLC. "
                        "distinct = (operator/argument-type structure of the filter, type signature of the corpus); ill-typed pairs (Python cannot order) are excluded by WellTyped")
     flags = probe_flags(ctx)
-    ctx.cov["deviation_flags"] = {"FixedD1": flags[0], "FixedD2": flags[1]}
+    ctx.cov["deviation_flags"] = {"FixedD1": flags[0], "FixedD2": flags[1], "FixedD3": flags[2]}
     col = Collector(ctx)
 
     # ---- 1. TLC reports the requirement violated on the conformant model; replay the counterexample --------
-    for which, fixed, sig in (("D1", flags[0], SIG_D1), ("D2", flags[1], SIG_D2)):
+    for which, fixed, sig in (("D1", flags[0], SIG_D1), ("D2", flags[1], SIG_D2), ("D3", flags[2], SIG_D3)):
         if fixed:
             continue
         jobs, f, got = requirement_counterexample(ctx, col, flags, which)
@@ -350,7 +359,7 @@ def run(ctx):
 
     # ---- 2. calibration grid, 3. universe ---------------------------------------------------------------
     ngrid, gfilters, glines = tlc_cases("grid", 1, "grid")
-    nuni, ufilters, ulines = tlc_cases("universe", 14 if quick else 260, "uni")
+    nuni, ufilters, ulines = tlc_cases("universe", 14 if quick else 200, "uni")
     ctx.cov["cases"] = {"grid": ngrid, "universe": nuni, "universe_filters": len(ufilters), "universe_corpora": len(ulines)}
     for ln in (ulines[len(ulines) // 2], ulines[-1]):
         k = len(ufilters) // 3
@@ -360,12 +369,14 @@ def run(ctx):
     # ---- 4. constructor / simulate ------------------------------------------------------------------------
     bout = os.path.join(ctx.work, "build.ndjson")
     cfgt = tlc.cfg(consts("build", flags, ncorp=30), init="InitBuild", next="NextBuild", invariants=THEOREMS[:-1] + ["EmitCase"])
-    r = tlc.run(SPEC, cfg_text=cfgt, workdir=ctx.work, workers=1, seed=ctx.seed % 10**6, simulate="num=%d" % (1500 if quick else 30000),
+    r = tlc.run(SPEC, cfg_text=cfgt, workdir=ctx.work, workers=1, seed=ctx.seed % 10**6, simulate="num=%d" % (1500 if quick else 20000),
                 depth=20, env={"QUERY_OUT": bout}, coverage=False, allow_violation=False)
     ctx.add_tlc("Query build: -simulate of AddJob/AddTwin/PushAtom/Negate/Combine*/WrapOne, cases emitted by TLC", r)
     built = [json.loads(l) for l in open(bout)]
-    if len(built) < 100:
-        raise core.MachineryError("constructor run emitted only %d cases" % len(built))
+    tags = collections.Counter(b["filter"]["tag"] for b in built)
+    if len(built) < 100 or any(tags[t] == 0 for t in ("not", "and", "or")) or not any(len(b["corpus"]) >= 5 and Q.shape_of(b["filter"]).count("[") >= 3 for b in built):
+        raise core.MachineryError("vacuous constructor run: %d cases, top-level tags %r" % (len(built), dict(tags)))   # vacuity guard
+    ctx.cov["spec_actions"].update({"build:top-level-" + t: n for t, n in tags.items()})
     _G.update(base=ctx.mkdtemp("rp-build"))
     gots = core.pmap(_replay_built, list(enumerate(built)), procs=procs)
     depths = collections.Counter()
@@ -373,7 +384,7 @@ def run(ctx):
         jobs = Q.corpus_to_py(rec["corpus"])
         f = rec["filter"]
         depths[(len(jobs), Q.shape_of(f).count("["))] += 1
-        ctx._distinct.add(Q.shape_of(f) + "|" + ",".join(sorted(_job_sig(*j) for j in jobs)))
+        ctx.count(Q.shape_of(f) + "|" + ",".join(sorted(_job_sig(*j) for j in jobs)), n=0)
         if got == rec["want"]:
             if rec["outs"] and rec["want"] not in [o[0] for o in rec["outs"]]:
                 ctx.spec_drift("model says the code cannot answer %s correctly (deviation active) but it did" % Q.concrete(f))
@@ -392,7 +403,7 @@ def run(ctx):
     # ---- 5. code -> spec -------------------------------------------------------------------------------------
     _G.update(base=ctx.mkdtemp("rec"))
     rnd = random.Random(ctx.seed)
-    ncorp, nfil = (150, 12) if quick else (1500, 20)
+    ncorp, nfil = (150, 12) if quick else (1000, 20)
     items = [(i, rnd.randrange(2**40), nfil) for i in range(ncorp)]
     recs = [r for rs in core.pmap(_record_corpus, items, procs=procs) for r in rs]
     verdicts = judge(ctx, recs, flags, "recorded")
